@@ -335,4 +335,370 @@ theorem nodeUpdate_idx {s s' : State} {frm : Addr} {gb hr : Option Coins} {url :
   obtain ⟨e1, e2, e3⟩ := nodeUpdated_same n gb hr url
   exact NodeIdx.of_nview (s := s1) rfl (setNode_same_idx hr' hi hn h1 e1 e2 e3)
 
+theorem nodeStatus_idx {s s' : State} {frm : Addr} {st : Status} (h : nodeStatus s frm st = .ok s')
+    (hr : RecInv s) (hi : NodeIdx s) : NodeIdx s' := by
+  unfold nodeStatus at h
+  simp only [bind_eq_ok, pure_eq_ok, orReject_eq_ok] at h
+  obtain ⟨n, hn, s5, h5, rfl⟩ := h
+  have hN := hr.nodePart
+  have hI := (nodeIdx_iff s).mp hi
+  obtain ⟨d1, d2, d3, d4, d5, d6, d7, d8, d9⟩ := hI.nodup
+  rcases getNode_mem hn with hm | hm
+  · have hna := hN.a frm n hm
+    have hps : n.status = .StatusActive := hna.2
+    cases st <;>
+      simp only [hps, reduceCtorEq, and_self, and_true, and_false, if_true, if_false] at h5
+    all_goals
+      rcases setNode_eff h5 with ⟨hs5, e⟩ | ⟨hs5, e⟩ <;> subst e <;>
+      first
+        | (simp only [reduceCtorEq] at hs5; done)
+        | (rw [nodeIdx_iff]
+           refine ⟨?_, hI.pfp, ?_, ?_⟩
+           · first
+               | (apply QOK.reactivate hI.q hm <;> first | rfl | exact hna.1)
+               | exact hI.q.deactivate hm
+           · first
+               | exact hI.links.mono (fun _ h => h) (isSome_mono_of_update (getAI_setA _ _ _ _))
+               | exact hI.links.mono (fun _ h => h) (isSome_mono_of_update (getAI_toI _ _ _ hna.1))
+           · nodup_tac)
+  · have hni := hN.i frm n hm
+    have hps : n.status = .StatusInactive := hni.2.1
+    have hno : s.nodeActive.get frm = none := (Tbl.has_eq_false_iff _ _).mp (hN.notA_of_getI hm)
+    have hno' : s.nodeActive.get n.addr = none := by rw [hni.1]; exact hno
+    cases st <;>
+      simp only [hps, reduceCtorEq, and_self, and_true, and_false, if_true, if_false] at h5
+    all_goals
+      rcases setNode_eff h5 with ⟨hs5, e⟩ | ⟨hs5, e⟩ <;> subst e <;>
+      first
+        | (simp only [reduceCtorEq] at hs5; done)
+        | (rw [nodeIdx_iff]
+           refine ⟨?_, hI.pfp, ?_, ?_⟩
+           · first
+               | exact hI.q
+               | (apply QOK.activate hI.q hno <;> first | rfl | exact hni.1)
+           · first
+               | exact hI.links.mono (fun _ h => h) (isSome_mono_of_update (getAI_setI _ _ _ hno'))
+               | exact hI.links.mono (fun _ h => h) (isSome_mono_of_update (getAI_toA _ _ _ hni.1))
+           · nodup_tac)
+
+theorem nodeSweep_idx {s s' : State} (h : nodeSweep s = .ok s') (hr : RecInv s) (hi : NodeIdx s) : NodeIdx s' := by
+  unfold nodeSweep at h
+  split at h
+  · rw [pure_eq_ok] at h; rw [← h]; exact hi
+  · refine (foldlM_inv (fun t => RecInv t ∧ NodeIdx t) _ ?_ _ s s' h ⟨hr, hi⟩).2
+    intro s0 a s1 h1 hp
+    simp only [bind_eq_ok, pure_eq_ok, orPanic_eq_ok] at h1
+    obtain ⟨item, hitem, s2, h2, rfl⟩ := h1
+    exact ⟨RecInv.of_nview (s := s2) rfl (setNode_same_rec hp.1 hitem h2 rfl rfl rfl),
+           NodeIdx.of_nview (s := s2) rfl (setNode_same_idx hp.1 hp.2 hitem h2 rfl rfl rfl)⟩
+
+theorem nodeExpireStep_idx {s s' : State} {k : Time × Addr} (h : nodeExpireStep s k = .ok s') (hr : RecInv s)
+    (hi : NodeIdx s) : NodeIdx s' := by
+  unfold nodeExpireStep at h
+  simp only [bind_eq_ok, pure_eq_ok, orPanic_eq_ok] at h
+  obtain ⟨item, hitem, s3, h3, rfl⟩ := h
+  have hN := hr.nodePart
+  have hI := (nodeIdx_iff s).mp hi
+  obtain ⟨d1, d2, d3, d4, d5, d6, d7, d8, d9⟩ := hI.nodup
+  rcases setNode_eff h3 with ⟨hs3, e⟩ | ⟨hs3, e⟩ <;> subst e
+  · simp only [reduceCtorEq] at hs3
+  · rw [nodeIdx_iff]
+    refine ⟨?_, hI.pfp, hI.links.mono (fun _ h => h) (isSome_mono_of_update (getAI_toI _ _ _ rfl)), ?_⟩
+    · rcases getNode_mem hitem with hm | hm
+      · have hk : item.addr = k.2 := (hN.a _ _ hm).1
+        exact hI.q.deactivate (by rw [hk]; exact hm)
+      · have hk : item.addr = k.2 := (hN.i _ _ hm).1
+        have hno : s.nodeActive.get item.addr = none := by
+          rw [hk]; exact (Tbl.has_eq_false_iff _ _).mp (hN.notA_of_getI hm)
+        exact hI.q.erase_none hno _
+    · nodup_tac
+
+/-! ### plans -/
+
+theorem planCreate_idx {s s' : State} {frm : Addr} {dur : Dur} {gb : Int} {prices : Coins}
+    (h : planCreate s frm dur gb prices = .ok s') (hc : CountInv s) (hi : NodeIdx s) : NodeIdx s' := by
+  obtain ⟨_, rfl⟩ := planCreate_eff h
+  have hI := (nodeIdx_iff s).mp hi
+  obtain ⟨d1, d2, d3, d4, d5, d6, d7, d8, d9⟩ := hI.nodup
+  have hA : s.planActive.get (s.planCount.getD 0 + 1) = none := by
+    cases hg : s.planActive.get (s.planCount.getD 0 + 1) with
+    | none => rfl
+    | some p => have := hc.plans _ p (Or.inl hg); omega
+  have hIn : s.planInactive.get (s.planCount.getD 0 + 1) = none := by
+    cases hg : s.planInactive.get (s.planCount.getD 0 + 1) with
+    | none => rfl
+    | some p => have := hc.plans _ p (Or.inr hg); omega
+  have hnone : planProv s (s.planCount.getD 0 + 1) = none := by
+    unfold planProv getAI; rw [hA, hIn]; rfl
+  have key : ∀ s'' : State, s''.nodeQ = s.nodeQ → s''.nodeActive = s.nodeActive → s''.nodeInactive = s.nodeInactive →
+      s''.planForProv = s.planForProv.set (frm, s.planCount.getD 0 + 1) () → s''.nodeForPlan = s.nodeForPlan →
+      s''.planActive = s.planActive → s''.provActive = s.provActive → s''.provInactive = s.provInactive →
+      ∀ pl : Plan, pl.prov = frm → s''.planInactive = s.planInactive.set (s.planCount.getD 0 + 1) pl → NodeIdx s'' := by
+    intro s'' e1 e2 e3 e4 e5 e6 e7 e8 pl hpl e9
+    have hupd : ∀ i, planProv s'' i = if s.planCount.getD 0 + 1 = i then some frm else planProv s i := by
+      intro i
+      unfold planProv
+      rw [e6, e9, getAI_setI _ _ _ hA]
+      by_cases e : s.planCount.getD 0 + 1 = i
+      · simp only [e, if_true, Option.map_some, hpl]
+      · simp only [e, if_false]
+    have hhn : hasN s'' = hasN s := by funext n; unfold hasN; rw [e2, e3]
+    rw [nodeIdx_iff]
+    refine ⟨?_, ?_, ?_, ?_⟩
+    · rw [e1, e2]; exact hI.q
+    · rw [e4]; exact hI.pfp.add hnone hupd
+    · rw [e5, hhn]
+      refine hI.links.mono ?_ (fun _ h => h)
+      intro i hs
+      rw [hupd i]
+      by_cases e : s.planCount.getD 0 + 1 = i
+      · simp [e]
+      · simp only [e, if_false]; exact hs
+    · rw [e1, e4, e5, e2, e3, e6, e7, e8, e9]
+      exact ⟨d1, Tbl.nodup_set d2 _ _, d3, d4, d5, d6, d7, d8, Tbl.nodup_set d9 _ _⟩
+  exact key _ rfl rfl rfl rfl rfl rfl rfl rfl _ rfl rfl
+
+theorem planStatus_idx {s s' : State} {frm : Addr} {id : Nat} {st : Status}
+    (h : planStatus s frm id st = .ok s') (hr : RecInv s) (hi : NodeIdx s) : NodeIdx s' := by
+  unfold planStatus at h
+  simp only [bind_eq_ok, pure_eq_ok, require_eq_ok, orReject_eq_ok] at h
+  obtain ⟨p, hp, _, _, s3, h3, rfl⟩ := h
+  have hL := hr.planPart
+  have hI := (nodeIdx_iff s).mp hi
+  obtain ⟨d1, d2, d3, d4, d5, d6, d7, d8, d9⟩ := hI.nodup
+  have hgp : getAI s.planActive s.planInactive id = some p := by rw [← getPlan_eq]; exact hp
+  -- whatever the move, lookups change only at `id`, where the provider stays the same
+  have key : ∀ s'' : State, s''.nodeQ = s.nodeQ → s''.nodeActive = s.nodeActive → s''.nodeInactive = s.nodeInactive →
+      s''.planForProv = s.planForProv → s''.nodeForPlan = s.nodeForPlan →
+      (∀ j, getAI s''.planActive s''.planInactive j =
+        if id = j then some { p with status := st, statusAt := s.time } else getAI s.planActive s.planInactive j) →
+      Tbl.Nodup s''.provActive → Tbl.Nodup s''.provInactive → Tbl.Nodup s''.planActive → Tbl.Nodup s''.planInactive →
+      NodeIdx s'' := by
+    intro s'' e1 e2 e3 e4 e5 hu n6 n7 n8 n9
+    have hpp : ∀ j, planProv s'' j = planProv s j := map_eq_of_update hu hgp rfl
+    have hhn : hasN s'' = hasN s := by funext n; unfold hasN; rw [e2, e3]
+    rw [nodeIdx_iff]
+    refine ⟨?_, ?_, ?_, ?_⟩
+    · rw [e1, e2]; exact hI.q
+    · rw [e4]; exact hI.pfp.congr hpp
+    · rw [e5, hhn]; exact hI.links.mono (fun i hs => by rw [hpp i]; exact hs) (fun _ h => h)
+    · rw [e1, e4, e5, e2, e3]; exact ⟨d1, d2, d3, d4, d5, n6, n7, n8, n9⟩
+  rcases getPlan_mem hp with hm | hm
+  · have hpa := hL.a id p hm
+    have hps : p.status = .StatusActive := hpa.2
+    cases st <;>
+      simp only [hps, reduceCtorEq, and_self, and_true, and_false, if_true, if_false] at h3
+    all_goals
+      rcases setPlan_eff h3 with ⟨hs3, e⟩ | ⟨hs3, e⟩ <;> subst e <;>
+      first
+        | (simp only [reduceCtorEq] at hs3; done)
+        | (refine NodeIdx.of_nview (s := _) (nview_emit _ _) (key _ rfl rfl rfl rfl rfl ?_ ?_ ?_ ?_ ?_)
+           · first
+               | (intro j; rw [← hpa.1]; exact getAI_setA _ _ _ _ j)
+               | exact getAI_toI _ _ _ hpa.1
+           all_goals (repeat' (first | assumption | apply Tbl.nodup_set | apply Tbl.nodup_erase)))
+  · have hpi := hL.i id p hm
+    have hps : p.status = .StatusInactive := hpi.2
+    have hno : s.planActive.get id = none := (Tbl.has_eq_false_iff _ _).mp (hL.notA_of_getI hm)
+    cases st <;>
+      simp only [hps, reduceCtorEq, and_self, and_true, and_false, if_true, if_false] at h3
+    all_goals
+      rcases setPlan_eff h3 with ⟨hs3, e⟩ | ⟨hs3, e⟩ <;> subst e <;>
+      first
+        | (simp only [reduceCtorEq] at hs3; done)
+        | (refine NodeIdx.of_nview (s := _) (nview_emit _ _) (key _ rfl rfl rfl rfl rfl ?_ ?_ ?_ ?_ ?_)
+           · first
+               | (intro j; rw [← hpi.1]; exact getAI_setI _ _ _ (by rw [hpi.1]; exact hno) j)
+               | exact getAI_toA _ _ _ hpi.1
+           all_goals (repeat' (first | assumption | apply Tbl.nodup_set | apply Tbl.nodup_erase)))
+
+theorem planLink_idx {s s' : State} {frm : Addr} {id : Nat} {node : Addr}
+    (h : planLink s frm id node = .ok s') (hi : NodeIdx s) : NodeIdx s' := by
+  unfold planLink at h
+  simp only [bind_eq_ok, pure_eq_ok, require_eq_ok, orReject_eq_ok] at h
+  obtain ⟨p, hp, _, _, _, hn, rfl⟩ := h
+  have hI := (nodeIdx_iff s).mp hi
+  obtain ⟨d1, d2, d3, d4, d5, d6, d7, d8, d9⟩ := hI.nodup
+  rw [nodeIdx_iff]
+  refine ⟨hI.q, hI.pfp, hI.links.set ?_ ?_, ?_⟩
+  · rw [planProv_isSome, hp]; rfl
+  · rw [← hasNode_eq]; exact hn
+  · nodup_tac
+
+theorem planUnlink_idx {s s' : State} {frm : Addr} {id : Nat} {node : Addr}
+    (h : planUnlink s frm id node = .ok s') (hi : NodeIdx s) : NodeIdx s' := by
+  unfold planUnlink at h
+  simp only [bind_eq_ok, pure_eq_ok, require_eq_ok, orReject_eq_ok] at h
+  obtain ⟨p, _, _, _, rfl⟩ := h
+  have hI := (nodeIdx_iff s).mp hi
+  obtain ⟨d1, d2, d3, d4, d5, d6, d7, d8, d9⟩ := hI.nodup
+  rw [nodeIdx_iff]
+  refine ⟨hI.q, hI.pfp, hI.links.erase _, ?_⟩
+  nodup_tac
+
+/-! ### the remaining steps: nothing `NodeIdx` reads is touched -/
+
+theorem nodeSubscribe_idx {s s' : State} {frm node : Addr} {gb hr : Int} {denom : Denom}
+    (h : nodeSubscribe s frm node gb hr denom = .ok s') (hi : NodeIdx s) : NodeIdx s' := NodeIdx.of_nview (nodeSubscribe_nview h) hi
+theorem planSubscribe_idx {s s' : State} {frm : Addr} {id : Nat} {denom : Denom}
+    (h : planSubscribe s frm id denom = .ok s') (hi : NodeIdx s) : NodeIdx s' := NodeIdx.of_nview (planSubscribe_nview h) hi
+theorem subCancel_idx {s s' : State} {frm : Addr} {id : Nat} (h : subCancel s frm id = .ok s') (hi : NodeIdx s) : NodeIdx s' :=
+  NodeIdx.of_nview (subCancel_nview h) hi
+theorem subAllocate_idx {s s' : State} {frm toA : Addr} {id : Nat} {bytes : Int}
+    (h : subAllocate s frm id toA bytes = .ok s') (hi : NodeIdx s) : NodeIdx s' := NodeIdx.of_nview (subAllocate_nview h) hi
+theorem sessStart_idx {s s' : State} {frm : TextAddr} {id : Nat} {node : Addr}
+    (h : sessStart s frm id node = .ok s') (hi : NodeIdx s) : NodeIdx s' := NodeIdx.of_nview (sessStart_nview h) hi
+theorem sessUpdate_idx {s s' : State} {frm : Addr} {id : Nat} {up down dur : Int} {sig : SigSpec}
+    (h : sessUpdate s frm id up down dur sig = .ok s') (hi : NodeIdx s) : NodeIdx s' := NodeIdx.of_nview (sessUpdate_nview h) hi
+theorem sessEnd_idx {s s' : State} {frm : Addr} {id : Nat} (h : sessEnd s frm id = .ok s') (hi : NodeIdx s) : NodeIdx s' :=
+  NodeIdx.of_nview (sessEnd_nview h) hi
+theorem swap_idx {s s' : State} {frm recv : Addr} {hash : Bytes} {amt : Int}
+    (h : swap s frm hash recv amt = .ok s') (hi : NodeIdx s) : NodeIdx s' := NodeIdx.of_nview (swap_nview h) hi
+theorem mintBeginBlock_idx (s : State) (hi : NodeIdx s) : NodeIdx (mintBeginBlock s) :=
+  NodeIdx.of_nview (nview_mintBeginBlock_go _ s) hi
+theorem distrSweep_idx (s : State) (hi : NodeIdx s) : NodeIdx (distrSweep s) :=
+  NodeIdx.of_nview (nview_of_mframe (distrSweep_mframe s)) hi
+theorem payoutStep_idx {s s' : State} {k : Time × Nat} (h : payoutStep s k = .ok s') (hi : NodeIdx s) : NodeIdx s' :=
+  NodeIdx.of_nview (payoutStep_nview h) hi
+theorem sessionStep_idx {s s' : State} {k : Time × Nat} (h : sessionStep s k = .ok s') (hi : NodeIdx s) : NodeIdx s' :=
+  NodeIdx.of_nview (sessionStep_nview h) hi
+theorem subscriptionStep_idx {s s' : State} {d : Dur} {k : Time × Nat} (h : subscriptionStep d s k = .ok s')
+    (hi : NodeIdx s) : NodeIdx s' := NodeIdx.of_nview (subscriptionStep_nview h) hi
+
+/-! ### whole operations -/
+
+theorem handle_idx {s s' : State} {m : Msg} (h : m.handle s = .ok s') (hr : RecInv s) (hc : CountInv s) (hi : NodeIdx s) :
+    NodeIdx s' := by
+  cases m <;> simp only [Msg.handle] at h
+  case provRegister => exact provRegister_idx h hi
+  case provUpdate => exact provUpdate_idx h hi
+  case nodeRegister => exact nodeRegister_idx h hi
+  case nodeUpdate => exact nodeUpdate_idx h hr hi
+  case nodeStatus => exact nodeStatus_idx h hr hi
+  case nodeSubscribe => exact nodeSubscribe_idx h hi
+  case planCreate => exact planCreate_idx h hc hi
+  case planStatus => exact planStatus_idx h hr hi
+  case planLink => exact planLink_idx h hi
+  case planUnlink => exact planUnlink_idx h hi
+  case planSubscribe => exact planSubscribe_idx h hi
+  case subCancel => exact subCancel_idx h hi
+  case subAllocate => exact subAllocate_idx h hi
+  case sessStart => exact sessStart_idx h hi
+  case sessUpdate => exact sessUpdate_idx h hi
+  case sessEnd => exact sessEnd_idx h hi
+  case swap => exact swap_idx h hi
+
+theorem deliver_idx (s : State) (m : Msg) (hr : RecInv s) (hc : CountInv s) (hi : NodeIdx s) : NodeIdx (deliver s m).1 := by
+  have h0 : NodeIdx { s with events := [] } := NodeIdx.of_nview (s := s) rfl hi
+  have r0 : RecInv { s with events := [] } := RecInv.of_nview (s := s) rfl hr
+  have c0 : CountInv { s with events := [] } := CountInv.of_view (s := s) rfl hc
+  unfold deliver
+  simp only []
+  cases hr' : (do m.validateBasic; m.handle { s with events := [] } : M State) with
+  | ok s' =>
+    simp only [bind_eq_ok] at hr'
+    obtain ⟨_, _, hh⟩ := hr'
+    exact handle_idx hh r0 c0 h0
+  | error e => cases e <;> exact h0
+
+theorem beginBlock_idx {s s' : State} {t : Time} (h : beginBlock s t = .ok s') (hi : NodeIdx s) : NodeIdx s' := by
+  unfold beginBlock haltOf at h
+  split at h <;> try contradiction
+  rename_i s'' hs
+  simp only [Except.ok.injEq] at h
+  subst h
+  unfold subscriptionBeginBlock at hs
+  refine foldlM_inv NodeIdx _ ?_ _ _ _ hs ?_
+  · intro s0 k s1 h1 hp
+    rw [panicIfErr_eq_ok] at h1
+    exact payoutStep_idx h1 hp
+  · exact distrSweep_idx _ (mintBeginBlock_idx _ (NodeIdx.of_nview (s := s) rfl hi))
+
+theorem endBlock_idx {s s' : State} (h : endBlock s = .ok s') (hr : RecInv s) (hi : NodeIdx s) : NodeIdx s' := by
+  unfold endBlock haltOf at h
+  split at h <;> try contradiction
+  rename_i s2 hs
+  split at hs <;> try contradiction
+  rename_i s3 hs3
+  simp only [Except.ok.injEq] at hs h
+  subst hs; subst h
+  unfold vpnEndBlock nodeEndBlock nodeExpire sessionEndBlock subscriptionEndBlock at hs3
+  simp only [bind_eq_ok] at hs3
+  obtain ⟨s1, ⟨sa, ha, hb⟩, sb, hc, hd⟩ := hs3
+  have r00 : RecInv { s with events := [] } := RecInv.of_nview (s := s) rfl hr
+  have i00 : NodeIdx { s with events := [] } := NodeIdx.of_nview (s := s) rfl hi
+  have r0 : RecInv sa := nodeSweep_rec ha r00
+  have i0 : NodeIdx sa := nodeSweep_idx ha r00 i00
+  have i1 : NodeIdx s1 := (foldlM_inv (fun t => RecInv t ∧ NodeIdx t) _
+    (fun s0 k s1 h1 hp => ⟨nodeExpireStep_rec h1 hp.1, nodeExpireStep_idx h1 hp.1 hp.2⟩) _ _ _ hb ⟨r0, i0⟩).2
+  have i2 : NodeIdx sb := foldlM_inv NodeIdx _ (fun s0 k s1 h1 hp => sessionStep_idx h1 hp) _ _ _ hc i1
+  have i3 : NodeIdx s3 := foldlM_inv NodeIdx _ (fun s0 k s1 h1 hp => subscriptionStep_idx h1 hp) _ _ _ hd i2
+  exact NodeIdx.of_nview (s := s3) rfl i3
+
+theorem gov_idx (s : State) (c : ParamChange) (hi : NodeIdx s) : NodeIdx ((gov s c).getD s) := by
+  cases hg : gov s c with
+  | none => exact hi
+  | some s' => exact NodeIdx.of_nview (gov_nview hg) hi
+
+theorem step_idx {s s' : State} {op : Op} (h : step s op = some s') (hr : RecInv s) (hc : CountInv s) (hi : NodeIdx s) :
+    NodeIdx s' := by
+  cases op with
+  | tx m =>
+    simp only [step, Option.some.injEq] at h
+    rw [← h]; exact deliver_idx s m hr hc hi
+  | begin t =>
+    simp only [step] at h
+    split at h
+    · rename_i s1 hb
+      simp only [Option.some.injEq] at h; rw [← h]; exact beginBlock_idx hb hi
+    · contradiction
+  | endB =>
+    simp only [step] at h
+    split at h
+    · rename_i s1 hb
+      simp only [Option.some.injEq] at h; rw [← h]; exact endBlock_idx hb hr hi
+    · contradiction
+  | gov c =>
+    simp only [step, Option.some.injEq] at h
+    rw [← h]; exact gov_idx s c hi
+
+theorem genesis_base_idx (g : Genesis) : NodeIdx g.base := by
+  rw [nodeIdx_iff]
+  refine ⟨?_, ?_, ?_, ?_⟩
+  · intro t a
+    show Tbl.has ([] : Tbl (Time × Addr) Unit) (t, a) = true ↔ ∃ n, Tbl.get ([] : Tbl Addr Node) a = some n ∧ n.inactiveAt = t
+    simp
+  · intro a i
+    show Tbl.has ([] : Tbl (Addr × Nat) Unit) (a, i) = true ↔ (none : Option Addr) = some a
+    simp
+  · intro i n hk
+    have : Tbl.has ([] : Tbl (Nat × Addr) Unit) (i, n) = true := hk
+    simp at this
+  · exact ⟨Tbl.nodup_nil, Tbl.nodup_nil, Tbl.nodup_nil, Tbl.nodup_nil, Tbl.nodup_nil, Tbl.nodup_nil, Tbl.nodup_nil,
+      Tbl.nodup_nil, Tbl.nodup_nil⟩
+
+theorem genesis_idx (g : Genesis) : NodeIdx g.state :=
+  NodeIdx.of_nview (nview_of_mframe (genesis_mframe g)) (genesis_base_idx g)
+
+/-- `NodeIdx` (together with `RecInv` and `CountInv`) holds after every operation of every history from
+a state that satisfies the three. -/
+theorem idx_all_histories (ops : List Op) (s : State) (hr : RecInv s) (hc : CountInv s) (hi : NodeIdx s) :
+    ∀ s' ∈ runTrace s ops, NodeIdx s' := by
+  induction ops generalizing s with
+  | nil => intro s' h; simp [runTrace] at h
+  | cons op rest ih =>
+    intro s' h
+    simp only [runTrace] at h
+    cases hst : step s op with
+    | none => simp [hst] at h
+    | some s1 =>
+      simp only [hst, List.mem_cons] at h
+      have i1 := step_idx hst hr hc hi
+      rcases h with h | h
+      · rw [h]; exact i1
+      · exact ih s1 (step_rec hst hr hc) (step_count hst hc) i1 s' h
+
+theorem idx_genesis_histories (g : Genesis) (ops : List Op) : ∀ s ∈ runTrace g.state ops, NodeIdx s :=
+  idx_all_histories ops g.state (genesis_rec g) (genesis_count g) (genesis_idx g)
+
 end Hub.Model
